@@ -98,6 +98,32 @@ fn sub_modules(input: &[u8], st: &mut Stats) -> R {
     Ok(())
 }
 
+/// generated modules under `layout::mutate2`: special words at instruction boundaries, modules back
+/// to back, a text split inside a character over two instructions, ids around 2^16, swapped /
+/// repeated instructions; now and then followed by a byte-level fault as well
+fn sub_structural(input: &[u8], st: &mut Stats) -> R {
+    let mut cs = Cs::new(input);
+    let mode = match cs.below(4) {
+        0 => ModMode::Ordered,
+        1 => ModMode::Interleaved,
+        _ => ModMode::Wild,
+    };
+    let m = gen_module(&mut cs, mode, 24);
+    let (mut bytes, kinds) = crate::layout::mutate2(&mut cs, &m);
+    if cs.below(4) == 0 && !bytes.is_empty() {
+        let at = cs.below(bytes.len());
+        match cs.below(3) {
+            0 => bytes.truncate(at),
+            1 => bytes[at] ^= 1 << cs.below(8),
+            _ => bytes[at] = cs.u8(),
+        }
+    }
+    for k in &kinds {
+        st.count(&format!("structural_{}", k));
+    }
+    exercise(&bytes, st, &|| format!("{}structural edits: {:?}", m.render(), kinds))
+}
+
 /// header + pseudo-instructions: declared opcodes with arbitrary operand words.
 fn sub_junk(input: &[u8], st: &mut Stats) -> R {
     let mut cs = Cs::new(input);
@@ -402,6 +428,7 @@ pub const SUBS: &[Sub] = &[
     Sub { name: "decoder", f: sub_decoder },
     Sub { name: "edge-ids", f: sub_edge_ids },
     Sub { name: "reused-loader", f: sub_reused_loader },
+    Sub { name: "structural-variations", f: sub_structural },
 ];
 
 pub fn run(ctx: &Ctx) {
@@ -415,6 +442,7 @@ pub fn run(ctx: &Ctx) {
     drive_random(ctx, &SUBS[6], ctx.n(100_000, 50_000_000), 300);
     drive_random(ctx, &SUBS[7], ctx.n(10_000, 5_000_000), 4000);
     drive_random(ctx, &SUBS[8], ctx.n(10_000, 5_000_000), 2400);
+    drive_random(ctx, &SUBS[9], ctx.n(30_000, 10_000_000), 1200);
     if !ctx.quick() && !ctx.failed() {
         crate::fuzzing::drive_fuzz(ctx, "bytes", 1_000_000);
         crate::fuzzing::drive_fuzz(ctx, "modules", 300_000);
